@@ -3,7 +3,7 @@ from checks import collection_common as cc
 
 PROP = "C01"
 ALL = ["add", "add", "update", "remove", "flush", "ext", "compact", "reopen"]
-FLT = ["add", "add", "update", "update", "remove", "flush"]
+FLT = ["add", "add", "update", "update", "remove", "flush", "ext"]
 
 
 def run(tier):
@@ -32,7 +32,7 @@ def run(tier):
         "distinct_nontrivial counts the distinct crash points explored on the real code plus one clean run per "
         "workload group; every trace line is matched to a spec action with its logged fields and all invariants "
         "are evaluated after every line. Fault tier (mode fault): a storage fault - an error returned with the "
-        "mutation applied or not - on EVERY backend mutation of add/update/remove/flush workloads; the handle must "
+        "mutation applied or not - on EVERY backend mutation of add/update/remove/flush/save_extension workloads; the handle must "
         "either stay healthy with the operation undone (watermark put, document create + compensating delete, intent "
         "put: actions AddWmFail / AddDocFail / AddCompDelete / IntentFail, model-checked in MC_Collection_fault.cfg) or "
         "report itself poisoned, which the specification treats as Crash: it then refuses every call, writes nothing, "
@@ -41,8 +41,9 @@ def run(tier):
          "each object-store mutation is atomic (the crash model of the property)",
          "B-tree/BM25 index flush is an atomic snapshot commit at its manifest write (discharged by C10/C11)",
          "crash inside collection *creation* is not enumerated here",
-         "faults are injected into add / update / remove / flush; save_extension, compaction, open and close are not "
-         "faulted (a failed save_extension leaves the handle healthy with a stale metadata version: not modelled)"])
+         "faults are injected into add / update / remove / flush / save_extension (a save_extension whose put landed "
+         "leaves the handle healthy with a stale metadata version: its next metadata put is refused by the store, a "
+         "flush then poisons the handle - modelled at trace level only); compaction, open and close are not faulted"])
 
 
 def replay(payload):
